@@ -91,12 +91,19 @@ impl TraitCodegen<'_> {
                 SubAttribute::AsyncTrait(_) | SubAttribute::Automock(_)
             )
         });
+        // An entraited trait keeps all of its own attributes (docs, lints, ..), in their original order
+        let trait_attributes = match fn_input_mode {
+            FnInputMode::RawTrait(literal_attrs) if !literal_attrs.0.is_empty() => {
+                literal_attrs.to_token_stream()
+            }
+            _ => quote! { #(#trait_sub_attributes)* },
+        };
 
         Ok(quote_spanned! { span=>
             #opt_unimock_attr
             #opt_entrait_for_trait_attr
             #opt_mockall_automock_attr
-            #(#trait_sub_attributes)*
+            #trait_attributes
             #trait_visibility trait #trait_ident #params #supertraits #where_clause {
                 #(#fn_defs)*
             }
